@@ -10,31 +10,38 @@
 Require Import Base Tables_spellnorm SpellDecision SpellDecisionProofs.
 
 (* the decision, exactly: a word token with text w is accepted iff some entry has its id and is compatible with
-   the active dialect, and some entry is spelt exactly like normalise(w) or normalise(lower(w)) *)
+   the active dialect, and some entry is spelt — up to normalisation of both sides (ebb53b3) — exactly like w or
+   like lower(w) *)
 Theorem C06_decision_spec :
   forall (lc : char -> list char) (is_lower : char -> bool) D d w, dict_nodup lc is_lower D ->
   (accepts lc is_lower D d w = true <->
      (exists e, In e D /\ word_id lc is_lower (canon e) = word_id lc is_lower w /\ dialect_ok (edialect e) d = true) /\
-     (exists e', In e' D /\ (canon e' = normalized w \/ canon e' = normalized (to_lower lc is_lower w)))).
+     (exists e', In e' D /\ (normalized (canon e') = normalized w \/
+                             normalized (canon e') = normalized (to_lower lc is_lower w)))).
 Proof. exact accepts_spec. Qed.
 Check C06_decision_spec :
   forall (lc : char -> list char) (is_lower : char -> bool) D d w, dict_nodup lc is_lower D ->
   (accepts lc is_lower D d w = true <->
      (exists e, In e D /\ word_id lc is_lower (canon e) = word_id lc is_lower w /\ dialect_ok (edialect e) d = true) /\
-     (exists e', In e' D /\ (canon e' = normalized w \/ canon e' = normalized (to_lower lc is_lower w)))).
+     (exists e', In e' D /\ (normalized (canon e') = normalized w \/
+                             normalized (canon e') = normalized (to_lower lc is_lower w)))).
 Print Assumptions C06_decision_spec.
 
 (* positive half: inside any document, a word token that is the canonical spelling of a listed entry of the
-   active dialect — or, for a lower-case entry, its capitalised or upper-case form — draws no lint *)
+   active dialect (whatever characters the entry is stored with: since ebb53b3 no premise about normalisation) —
+   or, for a lower-case entry without characters that normalisation rewrites, its capitalised or upper-case
+   form — draws no lint *)
 Theorem C06_listed_accepted :
   forall (lc uc : char -> list char) (is_lower is_upper : char -> bool) (fuzzy : dict -> text -> nat -> list text),
   lower_fix lc is_lower ->
   forall D d e src words sp w ls,
-  dict_nodup lc is_lower D -> In e D -> dialect_ok (edialect e) d = true -> normalized (canon e) = canon e ->
+  dict_nodup lc is_lower D -> In e D -> dialect_ok (edialect e) d = true ->
   In sp words -> get_content sp src = Ok w ->
   ( w = canon e
-    \/ (lower_case lc is_lower (canon e) /\ w = capitalise uc (canon e) /\ Forall (case_regular lc uc) (firstn 1 (canon e)))
-    \/ (lower_case lc is_lower (canon e) /\ w = upper uc (canon e) /\ Forall (case_regular lc uc) (canon e)) ) ->
+    \/ (normalized (canon e) = canon e /\ lower_case lc is_lower (canon e) /\ w = capitalise uc (canon e) /\
+        Forall (case_regular lc uc) (firstn 1 (canon e)))
+    \/ (normalized (canon e) = canon e /\ lower_case lc is_lower (canon e) /\ w = upper uc (canon e) /\
+        Forall (case_regular lc uc) (canon e)) ) ->
   lint_doc lc uc is_lower is_upper fuzzy D d src words = Ok ls ->
   lint_word lc uc is_lower is_upper fuzzy D d src sp = Ok None /\ forall l, In l ls -> sl_span l = sp -> False.
 Proof. exact listed_accepted. Qed.
@@ -42,26 +49,30 @@ Check C06_listed_accepted :
   forall (lc uc : char -> list char) (is_lower is_upper : char -> bool) (fuzzy : dict -> text -> nat -> list text),
   lower_fix lc is_lower ->
   forall D d e src words sp w ls,
-  dict_nodup lc is_lower D -> In e D -> dialect_ok (edialect e) d = true -> normalized (canon e) = canon e ->
+  dict_nodup lc is_lower D -> In e D -> dialect_ok (edialect e) d = true ->
   In sp words -> get_content sp src = Ok w ->
   ( w = canon e
-    \/ (lower_case lc is_lower (canon e) /\ w = capitalise uc (canon e) /\ Forall (case_regular lc uc) (firstn 1 (canon e)))
-    \/ (lower_case lc is_lower (canon e) /\ w = upper uc (canon e) /\ Forall (case_regular lc uc) (canon e)) ) ->
+    \/ (normalized (canon e) = canon e /\ lower_case lc is_lower (canon e) /\ w = capitalise uc (canon e) /\
+        Forall (case_regular lc uc) (firstn 1 (canon e)))
+    \/ (normalized (canon e) = canon e /\ lower_case lc is_lower (canon e) /\ w = upper uc (canon e) /\
+        Forall (case_regular lc uc) (canon e)) ) ->
   lint_doc lc uc is_lower is_upper fuzzy D d src words = Ok ls ->
   lint_word lc uc is_lower is_upper fuzzy D d src sp = Ok None /\ forall l, In l ls -> sl_span l = sp -> False.
 Print Assumptions C06_listed_accepted.
 
-(* more generally: every spelling that has the entry's id and lower-cases + normalises to the entry *)
+(* more generally: every spelling that has the entry's id and lower-cases to the entry up to normalisation *)
 Theorem C06_variant_accepted :
   forall (lc : char -> list char) (is_lower : char -> bool) D d e w,
   dict_nodup lc is_lower D -> In e D -> dialect_ok (edialect e) d = true ->
-  word_id lc is_lower w = word_id lc is_lower (canon e) -> normalized (to_lower lc is_lower w) = canon e ->
+  word_id lc is_lower w = word_id lc is_lower (canon e) ->
+  normalized (to_lower lc is_lower w) = normalized (canon e) ->
   accepts lc is_lower D d w = true.
 Proof. exact variant_accepted. Qed.
 Check C06_variant_accepted :
   forall (lc : char -> list char) (is_lower : char -> bool) D d e w,
   dict_nodup lc is_lower D -> In e D -> dialect_ok (edialect e) d = true ->
-  word_id lc is_lower w = word_id lc is_lower (canon e) -> normalized (to_lower lc is_lower w) = canon e ->
+  word_id lc is_lower w = word_id lc is_lower (canon e) ->
+  normalized (to_lower lc is_lower w) = normalized (canon e) ->
   accepts lc is_lower D d w = true.
 Print Assumptions C06_variant_accepted.
 
@@ -244,3 +255,14 @@ Proof.
   intros H. apply filter_In in H as [_ H]. apply existsb_exists in H as (e & He & Heq).
   apply text_eqb_eq in Heq. eauto.
 Qed.
+
+(* an entry stored with a typographic apostrophe (blorf’s, U+2019) is a map entry that matches itself exactly and
+   is accepted as written — the clause `w = canon e` of C06_listed_accepted has no normalisation premise; with the
+   comparison of before ebb53b3 (contains_exact_word_old, history) it did not match *)
+Example C06_nonvacuous_curly_entry :
+  let D := [mkentry w_blorfs_curly None] in
+  dict_nodup ascii_lc ascii_is_lower D /\
+  contains_exact_word_old ascii_lc ascii_is_lower D w_blorfs_curly = false /\
+  contains_exact_word ascii_lc ascii_is_lower D w_blorfs_curly = true /\
+  accepts ascii_lc ascii_is_lower D American w_blorfs_curly = true.
+Proof. exact exact_old_rejects_own_entry. Qed.
